@@ -553,8 +553,8 @@ func TestC19(t *testing.T) {
 			c19Prop.One(t, c19Case{Src: "corpus", Path: f, Kinds: kinds, Runs: 3, Procs: 2})
 		}
 	})
-	t.Run("repeat", func(t *testing.T) { c19Prop.Run(t, scale(c19N(18), 300)) })
-	t.Run("cli", func(t *testing.T) { c19CLIProp.Run(t, scale(10, 120)) })
+	t.Run("repeat", func(t *testing.T) { c19Prop.Run(t, scale(c19N(18), 160)) })
+	t.Run("cli", func(t *testing.T) { c19CLIProp.Run(t, scale(10, 60)) })
 }
 
 func c19N(n int) int {
